@@ -288,8 +288,36 @@ class TargetGen:
         rng = self.rng
         if depth <= 0 or rng.random() < 0.2:
             return self.leaf()
-        kind = rng.choice(["slice", "index", "cat", "bit_select", "word_select", "array", "u", "s", "slice"])
+        kind = rng.choice(["slice", "index", "cat", "bit_select", "word_select", "array", "u", "s", "slice",
+                           "catslice", "rev"])
         self.note(kind)
+        if kind == "catslice":
+            # a window of a concatenation of three or more parts that reaches into the third or a later part
+            parts = [self.target(depth - 1) for _ in range(rng.randint(3, 5))]
+            parts = [p for p in parts if p is not None]
+            if not parts:
+                return None
+            c = Cat(*parts)
+            n = len(c)
+            lo_min = sum(len(p) for p in parts[:2]) if len(parts) >= 3 and rng.random() < 0.6 else 0
+            hi = rng.randint(min(lo_min, n), n)
+            lo = rng.randint(0, hi)
+            self.note(f"catslice:parts{len(parts)}")
+            if rng.random() < 0.3:
+                return c.bit_select(self.offset(), rng.randint(0, n))
+            return c[lo:hi]
+        if kind == "rev":
+            t = self.target(depth - 1)
+            if t is None:
+                return None
+            if len(t) == 0:
+                return t        # `t[::-1]` would be the empty `Cat()`, which the model's syntax cannot tell from its list terminator
+            r = t[::-1]
+            n = len(r)
+            if rng.random() < 0.6 and n > 0:
+                s0 = rng.randint(0, n)
+                return r[s0:rng.randint(s0, n)]
+            return r
         if kind == "cat":
             parts = [self.target(depth - 1) for _ in range(rng.randint(1, 3))]
             parts = [p for p in parts if p is not None]
